@@ -180,7 +180,7 @@ fn run(ctx: &Ctx) {
     let corpus = gen::corpus();
     ctx.run_indexed("corpus-x-all-configs", corpus.len() as u64 * 128, |i| Some(Case { input: B(corpus[(i / 128) as usize].1.clone()), cfg: (i % 128) as u8, source: ((i / 128) % 2) as u8 }), check);
     let strat = (gen::soup_strategy(16), 0u8..128, 0u8..3).prop_map(|(input, cfg, source)| Case { input: B(input), cfg, source });
-    ctx.run_proptest("soup", ctx.tier.pick(300_000, 5_000_000), strat, check);
+    ctx.run_proptest("soup", ctx.tier.pick(1_000_000, 8_000_000), strat, check);
 }
 
 fn replay(_stage: &str, case: &Value) -> Result<Verdict, String> {
